@@ -54,6 +54,10 @@ public:
     enum class Alignment { None, Left, Right, Center };
     enum class TruncateMode { None, Truncate, TruncateOnly };
 
+    // Upper bound for the width of a formatted field: the width comes from pattern text
+    // (possibly from a configuration file) and is used as an allocation size
+    static constexpr int MaxWidth = 4096;
+
     struct FormatSpec
     {
         QChar fill = QLatin1Char(' ');
@@ -106,7 +110,7 @@ public:
         if (spec.align == Alignment::None && hasTruncateSuffix) {
             // Try to parse entire remaining string as width
             bool ok;
-            spec.width = s.toInt(&ok);
+            spec.width = qMin(s.toInt(&ok), MaxWidth);
             if (ok && spec.width > 0) {
                 spec.truncateMode = TruncateMode::TruncateOnly;
                 return spec;
@@ -124,7 +128,7 @@ public:
 
         QString widthStr = s.mid(pos);
         bool ok;
-        spec.width = widthStr.toInt(&ok);
+        spec.width = qMin(widthStr.toInt(&ok), MaxWidth);
         if (!ok || spec.width <= 0)
             return std::nullopt;
 
